@@ -387,10 +387,15 @@ def main(mod, argv=None):
     ap.add_argument('--budget', type=float, help='wall-clock cap in seconds for the batch')
     ap.add_argument('--workers', type=int, default=int(os.environ.get('VERIF_WORKERS', '0')) or (os.cpu_count() or 4))
     ap.add_argument('--one', type=int, help='run a single run number in-process and print its notes')
+    ap.add_argument('--digest-choices', help='execute the choice list in this JSON file and print its RUN-DIGEST line')
     args = ap.parse_args(argv)
     seed = int(os.environ.get('VERIF_SEED', '0') or 0)
     if args.replay:
         return replay(mod, args.replay)
+    if args.digest_choices:
+        res = execute(mod, choices=json.load(open(args.digest_choices)))
+        print('RUN-DIGEST', res['notes'].get('run_digest'), 'ok' if res['ok'] and not res['aborted'] else 'notok', flush=True)
+        return 0
     if args.one is not None:
         res = execute(mod, seed=derive_seed(seed, mod.ID, args.one))
         print(json.dumps(jsonable({k: res[k] for k in ('ok', 'violation', 'aborted', 'counts', 'notes')}), indent=1))
